@@ -24,6 +24,7 @@ func main() {
 	file := fs.String("file", "", "replay file")
 	thriftgo := fs.String("thriftgo", "", "thriftgo binary built from the repo (process scenarios)")
 	plug := fs.String("plugin", "", "c11plugin binary (process scenarios)")
+	variants := fs.String("plugins", "", "c11plugin binaries whose build info records a thriftgo version: v0.4.1=/path,v0.4.2=/path,…")
 	fs.Parse(os.Args[2:])
 	switch sub {
 	case "extract":
@@ -32,11 +33,17 @@ func main() {
 			fmt.Fprintln(os.Stderr, "extract:", err)
 			os.Exit(1)
 		}
+		gate, err := c11lib.ExtractGate(*repo)
+		if err != nil {
+			fmt.Fprintln(os.Stderr, "extract:", err)
+			os.Exit(1)
+		}
 		fmt.Print(sc.Lean())
+		fmt.Print(gate.Lean())
 	case "run":
-		os.Exit(run(*repo, *dir, *seed, *tier, *thriftgo, *plug))
+		os.Exit(run(*repo, *dir, *seed, *tier, *thriftgo, *plug, *variants))
 	case "replay":
-		os.Exit(replay(*repo, *file, *thriftgo, *plug))
+		os.Exit(replay(*repo, *file, *thriftgo, *plug, *variants))
 	default:
 		fmt.Fprintln(os.Stderr, "unknown subcommand", sub)
 		os.Exit(2)
